@@ -105,7 +105,11 @@ Simple(T) == T.op \in LeafOps
 Arg(op, child, text) == IF op \notin NoWrap /\ ~Simple(child) THEN "(" \o text \o ")" ELSE text
 
 IsRegexpText(t) == Len(t) >= 2 /\ Ch(t, 1) = "/" /\ Ch(t, Len(t)) = "/"
-Stars(t) == ReplaceAll(ReplaceAll(t, "*", "%"), "?", "_")
+\* renderfn.go toSQLWildcards: the unescaped wildcards become % and _ ; a backslash keeps the character after it as it is
+RECURSIVE Stars(_)
+Stars(t) == IF t = "" THEN ""
+            ELSE IF Ch(t, 1) = "\\" /\ Len(t) >= 2 THEN SubSeq(t, 1, 2) \o Stars(SubSeq(t, 3, Len(t)))
+            ELSE (IF Ch(t, 1) = "*" THEN "%" ELSE IF Ch(t, 1) = "?" THEN "_" ELSE Ch(t, 1)) \o Stars(Tail(t))
 
 \* renderfn.go rang / rangParam on the serialized boundary text "[min, max]" / "(min, max)"
 Star == "'*'"
